@@ -64,12 +64,16 @@ TNext ==
        \/ e.a = "sendres" /\ Take(e, SendResFn(p, e.ok = 1, e.modes, e.t))
        \/ e.a = "tick" /\ TimeoutEnabled(p) /\ e.t = p.hold.t0 + CmdTimeout /\ Take(e, TimeoutFn(p, e.modes, e.t))
        \* a timer of the loop fired and nothing observable happened while the model has no timeout due: stuttering
-       \/ e.a = "tick" /\ e.out = <<>> /\ ~(TimeoutEnabled(p) /\ e.t >= p.hold.t0 + CmdTimeout) /\ UNCHANGED <<p, inflight>>
-       \/ e.a = "cancel" /\ Take(e, CancelFn(p, e.c, e.modes, e.t))
+       \/ e.a = "tick" /\ e.out = <<>> /\ ~(TimeoutEnabled(p) /\ e.t >= p.hold.t0 + CmdTimeout)
+                        /\ ~(OrphTimeoutEnabled(p) /\ e.t >= p.orph.t0 + CmdTimeout) /\ UNCHANGED <<p, inflight>>
+       \/ e.a = "tick" /\ OrphTimeoutEnabled(p) /\ e.t = p.orph.t0 + CmdTimeout /\ ~TimeoutEnabled(p) /\ Take(e, OrphTimeoutFn(p))
+       \/ e.a = "swap" /\ SwapEnabled(p) /\ Take(e, SwapFn(p))
+       \/ e.a = "cancel" /\ p.orph.c = e.c /\ p.orph.c # 0 /\ Take(e, OrphCancelFn(p))
+       \/ e.a = "cancel" /\ p.orph.c # e.c /\ Take(e, CancelFn(p, e.c, e.modes, e.t))
        \/ e.a = "frame" /\ e.raised = 0 /\
              \E alt \in FrameAlts(p, [seq |-> e.seq, cmd |-> e.cmd, val |-> e.val], e.modes, e.t) : Take(e, alt)
        \/ e.a = "mal" /\ e.raised = 0 /\ \E alt \in MalAlts(e) : Take(e, alt)
-       \/ e.a = "end" /\ e.pending = <<>> /\ p.hold.c = 0 /\ p.wq = <<>> /\ UNCHANGED <<p, inflight>>
+       \/ e.a = "end" /\ e.pending = <<>> /\ p.hold.c = 0 /\ p.wq = <<>> /\ p.orph.c = 0 /\ UNCHANGED <<p, inflight>>
   /\ l' = l + 1 /\ UNCHANGED tid
 TSpec == TInit /\ [][TNext]_tvars
 
